@@ -409,12 +409,13 @@ def meta_expr(c, o):
     cl = coq_classes(o["classes"])
     if c["mode"] in ("dot", "gen_dot"):
         doc = "mm_dot_doc %s %s" % (cl, coq_rows(o["rows"]))
-        rend = "dot_renderer"
+        hyps = "wf_mm %s && names_ok %s" % (cl, cl)
     else:
         lt = "(Some %s)" % cs(c["linetype"]) if c.get("linetype") else "None"
         doc = "mm_pu_doc %s %s %s" % (cl, lt, coq_rows(o["rows"]))
-        rend = "pu_renderer"
-    return "String.append (show_bool (wf_mm %s)) (show_str (%s))" % (cl, doc)
+        hyps = "wf_mm %s && names_ok %s && rows_ok %s && linetype_ok %s" % (cl, cl, coq_rows(o["rows"]), lt)
+    # the hypotheses of the metamodel theorems, evaluated on the dumped class list, then the modelled text
+    return "String.append (show_bool (%s)%%bool) (show_str (%s))" % (hyps, doc)
 
 
 WALK_IMPORTS = """From TxV Require Import Core.Base Core.Show Model.ExportDefs Gen.SrcExport Model.Export Model.ExportWalk Model.ExportMeta.
@@ -491,7 +492,7 @@ def run(chk):
             kind = c["kind"] + ":" + c.get("mode", "")
             if c["kind"] == "model" and not o.get("exc") and not o.get("build_exc") and all(
                     x["t"] != "obj" or x["id"] >= 0 for ob in o["objects"] for a in ob["attrs"] for x in (a["val"]["v"] if a["val"]["t"] == "list" else [a["val"]])):
-                if len(walk) < (400 if thorough else 60):
+                if len(walk) < (400 if thorough else 150):
                     walk.append((c, o))
             if c["kind"] == "metamodel" and not o.get("exc") and all(a["clsid"] >= 0 for k in o["classes"] for a in k["attrs"]) \
                     and all(j >= 0 for k in o["classes"] for j in k["inh_by"]):
@@ -553,16 +554,24 @@ def run(chk):
         bad = oracle_escape(s, e, rp)
         if bad:
             failures.append({"case": {"kind": "escape", "string": s}, "impl": {"escape": e, "repr": rp}, "what": bad, "tags": []})
+    compared = {}
     for (c, o), mv in zip(walk, wvals):
         chk.stat("traversal model compared")
+        if mv is not None:
+            key = "model:%s%s" % (c.get("mode"), " (user classes)" if c.get("classes") else "")
+            compared[key] = compared.get(key, 0) + 1
         if mv is not None and mv != core.canon_text(o["text"]):
             disagreements.append({"case": c, "impl": {"text": o["text"]}, "model": mv})
     for (c, o), mv in zip(metas, mvals):
         chk.stat("metamodel traversal model compared")
+        if mv is not None:
+            compared["metamodel:%s" % c.get("mode")] = compared.get("metamodel:%s" % c.get("mode"), 0) + 1
         if mv is not None and mv != "T" + core.canon_text(o["text"]):
-            what = "the dumped class list violates wf_mm (a link or specialisation touches a class without a node)" if mv.startswith("F") else None
+            what = "the dumped class list violates the hypotheses of the metamodel theorems (wf_mm: a link or specialisation touches a class without a node; names_ok/rows_ok/linetype_ok: a name is no identifier)" if mv.startswith("F") else None
             disagreements.append({"case": c, "impl": {"text": o["text"]}, "model": mv, "what": what})
     chk.cov["disagreements_checked"] = len(strings) + len(walk) + len(metas)
+    # exported texts compared character for character with the Coq traversal models, per mode
+    chk.cov["exact_text_compared"] = dict(sorted(compared.items()))
     chk.cov["rule"] = ("(1) every string over 8 characters (quote, backslash, braces, pipe, <, newline, a) up to length 3 (4 in thorough) plus random "
                        "hostile/long strings through dot_escape and dot_repr: implementation vs the Coq model, and each result re-read by an independent DOT "
                        "tokenizer and record-label parser; (2) generated models of three grammars (plain/list/mixed-list attributes, references, nesting, "
